@@ -164,7 +164,18 @@ def body_unrodded(env):
         r.duct_thickness = t
         t_gap = _vec(env, 'Tgap', 6, lo=200, hi=3000)
         h_gap = _vec(env, 'htc_gap', 6, lo=0, hi=1e7)
-        r._calc_duct_temp(t_gap, h_gap, adiabatic)
+        if env.params.get('via_calculate'):
+            # the whole real step of the region (coolant first, then the wall): the options given to calculate() must reach
+            # the wall solver
+            r._update_coolant_params = lambda *a_, **k_: None
+            env.stub('correlated-parameter update of the low-fidelity region is a no-op')
+            r.ebal = {kk: (vv.copy() if hasattr(vv, 'copy') else vv) for kk, vv in r.ebal.items()}
+            Tc_old = np.array(np.ravel(Tc), dtype=object if env.mode == 'sym' else float)
+            r.calculate(env.pos('dz', hi=1), {'refl': env.nonneg('q_refl', hi=1e6)}, t_gap, h_gap, adiabatic, False)
+            # the simple model solves its wall before advancing the coolant (old level), the six-node model after (new level)
+            Tc = Tc_old if model == 'simple' else np.ravel(r.temp['coolant_int'])
+        else:
+            r._calc_duct_temp(t_gap, h_gap, adiabatic)
         for c in range(6):
             T_in = Tc[0] if ncool == 1 else Tc[c]
             Ts_in = r.temp['duct_surf'][0, 0, c]
@@ -202,6 +213,8 @@ def instances(tier):
         for adiabatic in (False, True):
             inst.append(dict(label='unrodded[%s,adiabatic=%s]' % (model, adiabatic), body=body_unrodded,
                              params={'model': model, 'adiabatic': adiabatic}))
+            inst.append(dict(label='unrodded-step[%s,adiabatic=%s]' % (model, adiabatic), body=body_unrodded,
+                             params={'model': model, 'adiabatic': adiabatic, 'via_calculate': True}))
     return inst
 
 
